@@ -35,6 +35,7 @@ def run(ctx):
         source_status(ctx, crate)
         exit_code(ctx, crate)
         positional(ctx, crate)
+        func_args(ctx, crate)
         exit_on_error(ctx, crate)
         gate_rule(ctx, crate)
         in_shell(ctx, crate)
@@ -272,3 +273,54 @@ def gate_rule(ctx, crate):
            key="R15-5|%s|gate" % g.path, crate=crate.kind,
            detail=detail if ok else detail + ": cannot establish that every word the rewriter would rewrite passes the gate "
                                              "(e.g. \"$HOME/$1\" must still be expanded)")
+
+
+def func_args(ctx, crate):
+    """every word of a function call becomes one positional argument, empty quoted words included: the loop over
+    command.tokens in try_run_func pushes the word's text on every path of an iteration (no filter), or the
+    vector is built by an adaptor chain without filter/skip/take"""
+    b = crate.fn("core::try_run_func")
+    if not ctx.require(b is not None, "R15-2", "R15-2|anchor|try_run_func", "core::try_run_func not found"):
+        return
+    run = [bb for bb, t, c in b.calls() if last_seg(c) == "run_lines"]
+    if not ctx.require(len(run) == 1, "R15-2", "R15-2|%s|run_lines" % b.path, "expected one run_lines call", b.path):
+        return
+    args = b.call_args(run[0])
+    av = None
+    for a in args:
+        r = mir.root_local_expr(b.expand_vars(strip_sites(a)))
+        if r is not None and "Vec<std::string::String>" in b.locals[r]["ty"]:
+            av = r
+    if not ctx.require(av is not None, "R15-2", "R15-2|%s|args-vector" % b.path, "args vector not identified", b.path):
+        return
+    pushes = [bb for bb, t, c in b.calls() if last_seg(c) == "push" and "Vec" in c and b.call_args(bb) and
+              mir.root_local_expr(b.expand_vars(strip_sites(b.call_args(bb)[0]))) == av]
+    ok = False
+    detail = "no loop over command.tokens pushing into the args vector"
+    for h, blocks in sorted(b.loops().items()):
+        inl = [p for p in pushes if p in blocks]
+        nb = [bb for bb in blocks if b.term(bb)["k"] == "call" and last_seg(b.callee(b.term(bb))) == "next"]
+        if not inl or not nb:
+            continue
+        # iterates the tokens field
+        it = b.call_args(nb[0])[0]
+        if flow.backward(b, it, lambda z: flow.is_field_named(z, "tokens"), through_containers=False) is None:
+            continue
+        some_t = [tgt for tgt, atom, val in b.switch_edges(b.succs[nb[0]][0]) if val == "Some"] if b.succs[nb[0]] else []
+        if not some_t:
+            continue
+        ok = flow.must_pass(b, some_t[0], set(inl), {h}, within=blocks)
+        detail = None if ok else "an iteration can reach the next word without pushing the current one: an empty quoted " \
+                                 "argument (\"\", \"$unset\") disappears and every later $N shifts left"
+    if not ok and detail is not None and detail.startswith("no loop"):
+        LOSSY = {"filter", "skip", "take", "step_by", "skip_while", "take_while", "filter_map", "dedup", "rev", "retain",
+                 "flat_map", "flatten", "zip", "chain", "truncate", "pop", "remove"}
+        for bb, t, c in b.calls():
+            if last_seg(c) in ("extend", "append", "extend_from_slice") and b.call_args(bb) and \
+                    mir.root_local_expr(b.expand_vars(strip_sites(b.call_args(bb)[0]))) == av:
+                src = b.expand_vars(strip_sites(b.call_args(bb)[1]))
+                calls = {last_seg(x[1]) for x in mir.subexprs(src) if x[0] == "call"}
+                if any(flow.is_field_named(x, "tokens") for x in mir.subexprs(src)) and not (calls & LOSSY):
+                    ok, detail = True, None
+    ctx.ob("R15-2", b.path, "every word of the call is pushed as one positional argument", ok,
+           key="R15-2|%s|all-words" % b.path, where=b.loc(run[0]), crate=crate.kind, detail=detail)
